@@ -7,6 +7,8 @@
 import DpapiNg.Model.Layout
 import DpapiNg.Model.Gkdi
 import DpapiNg.Model.Rpc
+import DpapiNg.Model.SecDesc
+import DpapiNg.Proofs.Slices
 namespace DpapiNg
 open DpapiNg.Layout
 
@@ -220,4 +222,40 @@ theorem resultPack_eq_layout (r : ContextResult) : resultPack r = Layout.pack (r
   repeat' split
   all_goals simp_all
 end Rpc
+namespace SecDesc
+
+/-- `ace_to_bytes(sid, access_mask)`: `call:sid_to_bytes:sid` is the local `b_sid = sid_to_bytes(sid)` -/
+def aceLayout : List Item :=
+  [.const [0, 0], .lenPlus 8 "call:sid_to_bytes:sid" 2, .int "access_mask" 4, .bytes "call:sid_to_bytes:sid"]
+
+def aceEnv (sid : Bytes) (mask : Nat) : Env where
+  ints f := if f = "access_mask" then mask else 0
+  bytes f := if f = "call:sid_to_bytes:sid" then .ok sid else .error .keyError
+
+theorem aceBytes_eq_layout (sid : Bytes) (mask : Nat) (hs : 8 + sid.length < 65536) (hm : mask < 2 ^ 32) :
+    Layout.pack (aceEnv sid mask) aceLayout = .ok (aceBytes sid mask) := by
+  have h1 : (8 + sid.length) < 256 ^ 2 := by simpa using hs
+  have h2 : mask < 256 ^ 4 := by simpa using hm
+  unfold aceLayout aceBytes
+  simp (config := { decide := true }) only [Layout.pack, aceEnv, if_true, if_false, bind, Except.bind, pure, Except.pure,
+    Py.toBytesLE_ok _ _ h1, Py.toBytesLE_ok _ _ h2, List.append_nil, List.append_assoc]
+
+/-- `acl_to_bytes(aces)`: `join:aces` is the local `ace_data = b"".join(aces)`, `count:aces` is `len(aces)` -/
+def aclLayout : List Item :=
+  [.const [2, 0], .lenPlus 8 "join:aces" 2, .int "count:aces" 2, .const [0, 0], .bytes "join:aces"]
+
+def aclEnv (aces : List Bytes) : Env where
+  ints f := if f = "count:aces" then aces.length else 0
+  bytes f := if f = "join:aces" then .ok aces.flatten else .error .keyError
+
+theorem aclBytes_eq_layout (aces : List Bytes) (hs : 8 + aces.flatten.length < 65536) (hn : aces.length < 65536) :
+    Layout.pack (aclEnv aces) aclLayout = .ok (aclBytes aces) := by
+  have h1 : (8 + aces.flatten.length) < 256 ^ 2 := by simpa using hs
+  have h2 : aces.length < 256 ^ 2 := by simpa using hn
+  unfold aclLayout aclBytes
+  simp (config := { decide := true }) only [Layout.pack, aclEnv, if_true, if_false, bind, Except.bind, pure, Except.pure,
+    Py.toBytesLE_ok _ _ h1, Py.toBytesLE_ok _ _ h2, List.append_nil, List.append_assoc]
+
+end SecDesc
+
 end DpapiNg
